@@ -3,7 +3,7 @@ C19)."""
 import ast
 
 from ..fdai import Engine, Plugin, freeze, thaw
-from ..model import (AnalysisError, ClassInfo, U, walk_no_nested, parent,
+from ..model import (npos, AnalysisError, ClassInfo, U, walk_no_nested, parent,
                      ancestors)
 
 LIB_ERRORS = ("BadInputError", "OffsetValueError",
@@ -659,10 +659,10 @@ def r33_trunc_guard(ctx):
                       % f.qual)
             continue
         rep.anchor(rule, "arithmetic on nullable fields")
-        first = min(arith, key=lambda n: n.lineno)
+        first = min(arith, key=npos)
         guarded = False
         for n in walk_no_nested(f.node):
-            if isinstance(n, ast.If) and n.lineno < first.lineno and \
+            if isinstance(n, ast.If) and npos(n) < npos(first) and \
                     "_truncated" in U(n.test) and _all_paths_leave(n.body):
                 # must dominate: a preceding sibling in a block that
                 # encloses the arithmetic
